@@ -5,6 +5,28 @@ from props import rdlib as L
 
 PROP = "C09"
 TRUSTED = [
+    "harness/translate_rd.py (RDPy translator; runtime primitives Model/RDPy.lean) RE-TRANSLATES from /repo's relativedelta.py "
+    "into Generated/RDOps.lean on every run: __add__ (three Lean functions: date/datetime, relativedelta and timedelta "
+    "operand - isinstance on the declared operand type is decided statically), __radd__, __rsub__, __neg__, __abs__, __sub__, "
+    "__mul__ (integer scalar; float() / int() are the identity on the integer domain), __bool__, __eq__, __hash__ (the tuple), "
+    "and both branches of __init__ (keyword constructor incl. the unrolled ydayidx scan and the weekday coercion; "
+    "relativedelta(dt1, dt2) incl. the while loop as a fuel-bounded recursion); _fix / _set_months as before "
+    "(translate.py). Anything outside the fragment aborts with a named construct (broken tie). Proofs/RDGenEq.lean proves "
+    "Gen.f = model f for: addDt = applyTo, raddDt, rsubDt, neg, abs, addRd, subRd, addTd, mulInt, bool, eq, hashKey, "
+    "initDiff = diffN (out of fuel = NotImplemented), and initKw on the arguments the operators pass (initKw_plain); the "
+    "`_gen` theorems of the Audit file restate the property theorems over the generated definitions",
+    "STILL HAND-MODELLED, tied by sampling only: (a) the named primitives of Model/RDPy.lean = CPython behaviour "
+    "(calendar.monthrange / isleap, date/datetime.replace incl. its C-int and range errors, datetime.timedelta(...), "
+    "x + timedelta, x.weekday(), isinstance(x, datetime), datetime.fromordinal(d.toordinal()), <, > and - between "
+    "date/datetime objects incl. the same-object / UTC rule, timedelta.days/.seconds/.microseconds, weekdays[i], "
+    "attributes of a weekday object, `a or b`, truthiness of Optional values), exercised by rdgen.* on every run; "
+    "(b) the model `mk` vs the translated constructor on yearday / nlyearday / integer weekday arguments (no equality "
+    "theorem: both are compared with the implementation by rd.mk and rdgen.mk, and C03's yearday theorems are about `mk`); "
+    "(c) __div__, normalized(), __repr__, the `weeks` property, float-valued fields (not translated); "
+    "(d) the grouping of the hashed tuple into (weekday, ints, optionals) by the translator of hash((...))",
+    "the translator itself is validated on every run: every correspondence request to a hand-model op (rd.add, rd.rsub, "
+    "rd.mk, rd.expr, rd.bool, rd.hash, rd.eq, rd.diff, rd.diffn, rd.diffo) is repeated against the generated definition "
+    "(rdgen.*) and compared with the implementation",
     "Model/RelativeDelta.lean `diffN` mirrors relativedelta.__init__(dt1, dt2) (lines 112-169, 229): coercion of a date to a "
     "midnight datetime, initial month estimate, _set_months (generated), dtm = dt2 + self (the C03 model `applyTo`), the "
     "overshoot loop with explicit fuel, residual extraction, _fix (generated); tied by the correspondence op rd.diff "
@@ -158,14 +180,28 @@ def correspondence(ctx):
     # the UTC branch of the model (distinct tzinfo objects) against the implementation
     with L.process_tz("America/New_York"):
         nd = ctx.budget(6000, 60000)
+        genreq, genexp = [], []
+        slow_d = 0
         for a, b, offs, model in distinct_pairs(ctx, ctx.subrng("corr-distinct"), nd):
+            t0 = time.time()
             r = impl_diff(a, b)
+            if time.time() - t0 > SLOW_S or r == "hang":
+                slow_d += 1
+                ctx.count("corr_slow_calls")
+            if slow_d >= 20 or len(ctx.mismatches) >= 50:
+                ctx.note("distinct-objects correspondence stopped early (slow calls / enough mismatches)")
+                break
             ctx.count("corr_distinct_" + (r.split()[1] if r.startswith("err") else "ok"))
             if len(set([offs[0]] + [o for _, o in offs[1]])) > 1:
                 ctx.count("corr_distinct_offset_changes_in_span")
             if r != model:
                 ctx.mismatch("rd.diffo", diffo_request(a, b, offs), r, model)
+            genreq.append(diffo_request(a, b, offs).replace("rd.diffo", "rdgen.diffo", 1)); genexp.append(r)
             ctx.traces += 1
+        for q, e, g in zip(genreq, genexp, ctx.driver(genreq)):
+            if e != g:
+                ctx.mismatch("rdgen.diffo", q, e, g)
+        ctx.traces += len(genreq)
     n = ctx.budget(50000, 400000)
     reqs, exp = [], []
     slow = 0
@@ -189,6 +225,8 @@ def correspondence(ctx):
         ctx.count("corr_diff_" + (r.split()[1] if r.startswith("err") else "ok"))
         if i % 4 == 0:
             reqs.append("rd.diffn 1 %s %s" % (L.t_wire(a), L.t_wire(b))); exp.append(r)
+    reqs, exp = L.with_generated(reqs, exp)
+    ctx.count("corr_generated_requests", sum(1 for q in reqs if q.startswith("rdgen.")))
     got = ctx.driver(reqs)
     for q, e, g in zip(reqs, exp, got):
         if e != g:
@@ -348,6 +386,9 @@ def oracle(ctx):
                 ctx.count("oracle_distinct_offset_changes_in_span")
             check_pair(ctx, a, b, {"distinct_objects": True, "offsets_us": offsets, "model": model,
                                    "impl": impl_diff(a, b), "offs": [offs[0], offs[1]]})
+            if unknown_failures(ctx) >= STOP_AFTER or ctx.hist.get("oracle_hang", 0) >= 5:
+                ctx.note("oracle sweep (distinct objects) stopped early: failing inputs in hand")
+                break
     # relativedelta(x, x)
     for _ in range(ctx.budget(500, 20000)):
         x = L.g_temporal(rng)
